@@ -1,4 +1,5 @@
 """Generator of C12 cases (see c12_lang for the case language)."""
+import c12_lang as L
 
 DATA_KEYS = ['a', 'b', 'c', 'd', 'e']
 VAR_KEYS = ['va', 'vb']
@@ -199,17 +200,45 @@ class Gen:
         return t if not self.taints(t) else self.rng.randint(0, 9)
 
 
+ARG_WORDS = ['a0', 'a1', 'a2', 'k0=a1', 'k1=a2', 'k2=']
+
+
 def gen_case(rng, tier='quick', threads=False):
     clean = (threads and rng.random() < 0.75) or rng.random() < 0.4
     dict_in = [[k, data_tree(rng, 2, True)] for k in rng.sample(DATA_KEYS, rng.choice([0, 1, 1, 2]))]
     vars_ = [[k, data_tree(rng, 2, True)] for k in rng.sample(VAR_KEYS, rng.choice([0, 1, 2]))]
-    case = {'dict_in': dict_in, 'vars': vars_, 'shortcut': (not threads) and rng.random() < 0.2}
+    case = {'dict_in': dict_in, 'vars': vars_, 'shortcut': (not threads) and rng.random() < 0.3,
+            'parser': None, 'sc_parser_args': None, 'args_in': None}
+    # context parser of main, and where its argument list comes from: the caller's args_in,
+    # the shortcut's parser_args (a list held by config.shortcuts), or both
+    if rng.random() < 0.4:
+        case['parser'] = rng.choice(['list', 'list', 'list', 'keys', 'keyvaluepairs', 'string'])
+        if case['shortcut'] and rng.random() < 0.75:
+            case['sc_parser_args'] = [rng.choice(ARG_WORDS) for _ in range(rng.randint(0, 3))]
+        if rng.random() < (0.3 if case['sc_parser_args'] else 0.5):
+            case['args_in'] = [rng.choice(ARG_WORDS) for _ in range(rng.randint(1, 3))]
+    arglist = (case['parser'] == 'list') and bool(L.parser_ops(case, _RootIndex(), direct=threads))
     for pname, (lo, hi) in (('main', (1, 5)), ('other', (1, 3))):
         g = Gen(rng, clean)
         g.known = [k for k, _ in dict_in]
         g.types = {k: g.type_of(v) for k, v in dict_in}
         g.types.update({k: g.type_of(v) for k, v in vars_})
-        case[pname] = [g.step() for _ in range(rng.randint(lo, hi))]
+        if pname == 'main' and arglist:
+            g.known.append('argList')
+            g.types['argList'] = 'l'
+        steps = [g.step() for _ in range(rng.randint(lo, hi))]
+        if pname == 'main' and arglist and rng.random() < 0.6:
+            # grow the parser's list in place, early, so later steps and re-runs see it
+            how = rng.choice(['append', 'py', 'merge'])
+            if how == 'append':
+                st = {'kind': 'append', 'in': [], 'list': 'argList', 'mode': rng.choice(['key', 'py']),
+                      'addMe': rng.randint(0, 9)}
+            elif how == 'py':
+                st = {'kind': 'py', 'in': [], 'code': ['append', 'argList', rng.randint(0, 9)]}
+            else:
+                st = {'kind': 'merge', 'in': [], 'pairs': [['argList', {'l': [rng.randint(0, 9)]}]]}
+            steps.insert(rng.randint(0, min(1, len(steps))), st)
+        case[pname] = steps
     if threads:
         n0, n1 = len(case['main']), len(case['other'])
         scheds = []
@@ -221,3 +250,10 @@ def gen_case(rng, tier='quick', threads=False):
     else:
         case['threads'] = None
     return case
+
+
+class _RootIndex(dict):
+    """stand-in root table for asking parser_ops only WHETHER it binds argList."""
+
+    def __missing__(self, key):
+        return 0
